@@ -8,6 +8,13 @@ Only the boundedness clause is shape ("a write that must be bounded"):
          get_unchecked(_mut) index is the guarded field (push), the field minus one under a > 0 guard (pop/last), or a loop
          index below the field; unconditional stores are 0 (clear) or a caller-supplied height whose callers pass a call
          frame's stack_offset.
+         A sub-slice taken from the storage (storage[a..b], get(a..b)) ends at or below the height.
+         The height may be compared with `<`/`>=`.., `a.lt(&b)`.., or a match on `a.cmp(&b)`; an index may come from
+         `checked_sub` directly, through `?` / unwrap, or through a helper method of the stack that takes only `self`.
+  C14.N  every read of ValueStack's storage hands out live elements only: `data[i]`, `&data[i]` that is read through,
+         get / get_unchecked / index / first, sub-ranges, and the storage pointer (`as_ptr().add(i)`, `*ptr`,
+         from_raw_parts) are decided against the guards (index < height, range end <= height); a use of the whole storage
+         whose accesses are not modelled (iter(), last(), split_at(), ..) is undecided.
   C14.F  a failing push performs no store (contents unchanged).
 
 LIFO order and the results of pop_n/set/get/peek against a model are behavioural and NOT claimed.
@@ -32,9 +39,17 @@ ASSUMPTIONS = [
 ]
 
 STACKS = {
-    "collections::value_stack::ValueStack": {"height": "count", "bound": ("len", "data"), "room": 2},
-    "collections::bounded_stack::BoundedStack": {"height": "head", "bound": ("field", "capacity"), "room": 1},
+    "collections::value_stack::ValueStack": {"height": "count", "bound": ("len", "data"), "room": 2, "store": "data"},
+    "collections::bounded_stack::BoundedStack": {"height": "head", "bound": ("field", "capacity"), "room": 1, "store": "storage"},
 }
+
+
+def ctx(F, adt):
+    """per-stack description plus the facts (needed to follow calls into the stack's own helpers / a closure's parent)"""
+    d = dict(STACKS[adt])
+    d["F"] = F
+    d["adt"] = adt
+    return d
 
 
 class Lin:
@@ -72,12 +87,81 @@ def field_names_of_place(fn, du, place, depth=0):
     return names
 
 
+def is_self_arg(fn, du, op, cfgd):
+    """does the operand denote the stack the enclosing method works on (`self`, `&*self`, a closure's captured `self`)?"""
+    l = op_local(op)
+    if l is None:
+        return False
+    adt = cfgd.get("adt", "")
+    if not fn.is_closure:
+        kind, payload = du.trace_back(l)
+        # ("multi", 1): `self` is stored through (`(*self).count = ..`) but never re-assigned as a whole
+        reassigned = [d for d in du.defs.get(1, []) if not d[3].get("place", d[3].get("dest"))["p"]]
+        return kind in ("arg", "multi") and payload == 1 and not reassigned and fn.mir["locals"][1].get("adt", "") == adt
+    names = field_names_of_place(fn, du, {"l": l, "p": []})
+    return names == ["self"] and any(c.get("name") == "self" and adt in c.get("ty", "") for c in fn.captures)
+
+
+def call_passthrough(fn, du, t, p, cfgd):
+    """A call whose result (projected by `p`) is a value computed elsewhere: returns (fn2, du2, operand) denoting that value.
+      - `?`:  (Try::branch(x) as Continue).0  ==  (x as Some|Ok).0
+      - Option::unwrap/expect(x)  ==  (x as Some).0   (the call diverges otherwise)
+      - a method of the same stack that takes only `self`, called on the caller's own `self`: its return place"""
+    nm = callee_names(t["func"])
+    last = nm[0].rsplit("::", 1)[-1] if nm else ""
+    args = t.get("args") or []
+    a0 = op_local(args[0]) if args else None
+    ty0 = (t.get("arg_tys") or [""])[0]
+    proj = p["p"]
+    if a0 is not None and any(n.endswith("Try::branch") for n in nm) and proj and proj[0]["k"] == "downcast" and proj[0].get("variant") == "Continue":
+        variant = "Some" if ty0.startswith("std::option::Option<") else "Ok" if ty0.startswith("std::result::Result<") else None
+        if variant is not None:
+            return fn, du, {"k": "copy", "place": {"l": a0, "p": [dict(proj[0], variant=variant)] + list(proj[1:])}}
+    if a0 is not None and last in ("unwrap", "expect", "unwrap_unchecked") and ty0.startswith("std::option::Option<"):
+        return fn, du, {"k": "copy", "place": {"l": a0, "p": [{"k": "downcast", "variant": "Some"}, {"k": "field", "name": "0"}] + list(proj)}}
+    F = cfgd.get("F")
+    if F is not None and len(args) == 1 and (t["func"].get("local") or t["func"].get("resolved_local")) and is_self_arg(fn, du, args[0], cfgd):
+        mine = set(id(x) for x in stack_fns(F, cfgd["adt"]))
+        for n in nm:
+            g = F.fn(n, required=False)
+            # `&self` only: the helper cannot change the height between its read and the caller's use
+            if g is not None and g.mir and not g.is_closure and g.mir["arg_count"] == 1 and id(g) in mine and g is not fn \
+                    and g.mir["locals"][1]["ty"].startswith("&") and not g.mir["locals"][1]["ty"].startswith("&mut"):
+                return g, DefUse(g), {"k": "copy", "place": {"l": 0, "p": list(proj)}}
+    return None
+
+
+def deref_operand(du, op):
+    """the operand a reference-valued operand points at (`&x`, `&*r`, copies of such a borrow); None when not a plain borrow"""
+    l = op_local(op)
+    seen = set()
+    while l is not None and l not in seen:
+        seen.add(l)
+        d = du.sole_def(l)
+        if d is None or d[2] != "assign":
+            return None
+        rv = d[3]["rv"]
+        if rv["k"] == "use":
+            l = op_local(rv["op"])
+            continue
+        if rv["k"] == "ref":
+            pl = rv["place"]
+            if pl["p"] and all(e["k"] == "deref" for e in pl["p"]):
+                l = pl["l"]
+                continue
+            return {"k": "copy", "place": pl}
+        return None
+    return None
+
+
 def lin_of(fn, du, op, cfgd, depth=0):
     """linear form of an operand w.r.t. height field / bound"""
     h, bound = cfgd["height"], cfgd["bound"]
     if op.get("k") == "const":
         v = op.get("val")
-        return Lin(("const",), v if isinstance(v, int) else 0)
+        if not isinstance(v, int):
+            return Lin(("other", "const without value (const generic / non-integer)"))
+        return Lin(("const",), v)
     p = op_place(op)
     if p is None or depth > 10:
         return Lin(("other", id(op)))
@@ -117,6 +201,10 @@ def lin_of(fn, du, op, cfgd, depth=0):
             a = lin_of(fn, du, t["args"][0], cfgd, depth + 1)
             b = lin_of(fn, du, t["args"][1], cfgd, depth + 1)
             return Lin(("min", (a.base, a.off), (b.base, b.off)))
+        through = call_passthrough(fn, du, t, p, cfgd)
+        if through is not None:
+            fn2, du2, op2 = through
+            return lin_of(fn2, du2, op2, cfgd, depth + 1)
         return Lin(("other", last))
     rv = d[3]["rv"]
     k = rv["k"]
@@ -158,8 +246,30 @@ CMP = {"Lt": lambda a, b: a < b, "Le": lambda a, b: a <= b, "Gt": lambda a, b: a
        "Eq": lambda a, b: a == b, "Ne": lambda a, b: a != b}
 
 
-def guards_on_path(fn, du, block, cfgd):
-    """comparisons that dominate `block` together with the edge taken: list of (op, linL, linR, truth)"""
+ORD_VALUE = {255: -1, -1: -1, 0: 0, 1: 1, 18446744073709551615: -1}
+ORD_REL = {frozenset([-1]): "Lt", frozenset([0]): "Eq", frozenset([1]): "Gt", frozenset([-1, 0]): "Le", frozenset([0, 1]): "Ge",
+           frozenset([-1, 1]): "Ne"}
+INT_TYPES = ("usize", "u8", "u16", "u32", "u64", "u128", "isize", "i8", "i16", "i32", "i64", "i128")
+METHOD_CMP = {"lt": "Lt", "le": "Le", "gt": "Gt", "ge": "Ge", "eq": "Eq", "ne": "Ne"}
+
+
+def _bool_edge(cfg, t, block):
+    """which edge of a two-way switch on a bool dominates `block`: True / False / None"""
+    zero = dict((v, bb) for v, bb in t["targets"]).get(0)
+    if zero is None:
+        return None
+    true_t = t["otherwise"]
+    if cfg.dominates(true_t, block) and not cfg.dominates(zero, block):
+        return True
+    if cfg.dominates(zero, block) and not cfg.dominates(true_t, block):
+        return False
+    return None
+
+
+def cond_guards(fn, du, block):
+    """comparisons that dominate `block` together with the edge taken, as operands: list of (op, left, right, truth, guard
+    block). Understood: a SwitchInt on `a OP b`; on `a.lt(&b)` (le, gt, ge, eq, ne); a match on `a.cmp(&b)` (the set of
+    Ordering values whose arms lead to `block` is turned into the relation it stands for); a match on an integer value."""
     cfg = fn.cfg
     out = []
     for g in cfg.dom.get(block, ()):
@@ -173,21 +283,67 @@ def guards_on_path(fn, du, block, cfgd):
         for s_ in fn.blocks[g]["stmts"]:
             if s_["k"] == "assign" and s_["place"]["l"] == cond and s_["rv"]["k"] == "bin" and s_["rv"]["op"] in CMP:
                 st = s_
-        if st is None:
+        if st is not None:
+            truth = _bool_edge(cfg, t, block)
+            if truth is not None:
+                out.append((st["rv"]["op"], st["rv"]["l"], st["rv"]["r"], truth, g))
             continue
-        zero = dict((v, bb) for v, bb in t["targets"]).get(0)
-        if zero is None:
+        d = du.sole_def(cond) if cond is not None else None
+        if not (d is not None and d[2] == "assign" and d[3]["rv"]["k"] == "discr"):
+            # a match on an integer value itself (`Some(0) => ..`, `0 => ..`): equal to the one value whose arm leads here, or
+            # different from every listed value when only the default arm does
+            dp = op_place(t["discr"])
+            ty = None
+            if dp is not None:
+                fields = [e for e in dp["p"] if e["k"] == "field"]
+                ty = fields[-1].get("ty") if dp["p"] and dp["p"][-1]["k"] == "field" and fields else (fn.local_ty(dp["l"]) if not dp["p"] else None)
+            if ty in INT_TYPES:
+                def reaches(tgt):
+                    return tgt == block or block in cfg.reachable_from(tgt, avoid={g})
+                hit = [v for v, tgt in t["targets"] if reaches(tgt)]
+                if reaches(t["otherwise"]):
+                    if not hit:
+                        for v, _tgt in t["targets"]:
+                            out.append(("Ne", t["discr"], {"k": "const", "ty": ty, "val": v}, True, g))
+                elif len(hit) == 1:
+                    out.append(("Eq", t["discr"], {"k": "const", "ty": ty, "val": hit[0]}, True, g))
+                continue
+        if d is None:
             continue
-        true_t = t["otherwise"]
-        # which edge dominates block?
-        if cfg.dominates(true_t, block) and not cfg.dominates(zero, block):
-            truth = True
-        elif cfg.dominates(zero, block) and not cfg.dominates(true_t, block):
-            truth = False
-        else:
+        if d[2] == "call":
+            nm = callee_names(d[3]["func"])
+            last = nm[0].rsplit("::", 1)[-1] if nm else ""
+            if last in METHOD_CMP and any(n.endswith("PartialOrd::" + last) or n.endswith("PartialEq::" + last) for n in nm) and len(d[3]["args"]) == 2:
+                a, b = deref_operand(du, d[3]["args"][0]), deref_operand(du, d[3]["args"][1])
+                truth = _bool_edge(cfg, t, block)
+                if a is not None and b is not None and truth is not None:
+                    out.append((METHOD_CMP[last], a, b, truth, g))
             continue
-        out.append((st["rv"]["op"], lin_of(fn, du, st["rv"]["l"], cfgd), lin_of(fn, du, st["rv"]["r"], cfgd), truth))
+        rv = d[3]["rv"]
+        if rv["k"] == "discr" and not rv["place"]["p"]:
+            dc = du.sole_def(rv["place"]["l"])
+            if dc is None or dc[2] != "call" or len(dc[3]["args"]) != 2 or not any(n.endswith("Ord::cmp") for n in callee_names(dc[3]["func"])):
+                continue
+            a, b = deref_operand(du, dc[3]["args"][0]), deref_operand(du, dc[3]["args"][1])
+            tm = {}
+            for v, tgt in t["targets"]:
+                tm[ORD_VALUE.get(v)] = tgt
+            if a is None or b is None or None in tm:
+                continue
+            vals = set()
+            for v in (-1, 0, 1):
+                tgt = tm.get(v, t["otherwise"])
+                if tgt == block or block in cfg.reachable_from(tgt, avoid={g}):
+                    vals.add(v)
+            rel = ORD_REL.get(frozenset(vals))
+            if rel is not None:
+                out.append((rel, a, b, True, g))
     return out
+
+
+def guards_on_path(fn, du, block, cfgd):
+    """comparisons that dominate `block` together with the edge taken: list of (op, linL, linR, truth)"""
+    return [(op, lin_of(fn, du, a, cfgd), lin_of(fn, du, b, cfgd), truth) for op, a, b, truth, _g in cond_guards(fn, du, block)]
 
 
 def implied(guards, pred, hmax=7, lmax=7):
@@ -243,8 +399,75 @@ def closure_guard(F, f, cfgd):
     return []
 
 
-def aff_of(fn, du, op, cfgd, depth=0):
-    """affine form {h, L, p<n> (parameter n), 1: const} of an operand, or None"""
+def range_of_iterator(fn, du, op):
+    """(start operand, end operand) when the operand is (a borrow of) an iterator over `start..end`, forwards or reversed"""
+    l = op_local(op)
+    seen = set()
+    while l is not None and l not in seen:
+        seen.add(l)
+        d = du.sole_def(l)
+        if d is None:
+            return None
+        if d[2] == "call":
+            t = d[3]
+            nm = callee_names(t["func"])
+            last = nm[0].rsplit("::", 1)[-1] if nm else ""
+            if last in ("into_iter", "rev", "by_ref") and t["args"] and any("iter::" in n for n in nm):
+                l = op_local(t["args"][0])
+                continue
+            return None
+        rv = d[3]["rv"]
+        if rv["k"] == "use":
+            l = op_local(rv["op"])
+        elif rv["k"] == "ref" and (not rv["place"]["p"] or all(e["k"] == "deref" for e in rv["place"]["p"])):
+            l = rv["place"]["l"]
+        elif rv["k"] == "agg" and rv["agg"].get("k") == "adt" and short(rv["agg"].get("path", "")) in ("std::ops::Range", "core::ops::Range") \
+                and len(rv["ops"]) == 2:
+            return rv["ops"][0], rv["ops"][1]
+        else:
+            return None
+    return None
+
+
+BY_VALUE_ADAPTORS = ("map", "for_each", "filter_map", "flat_map", "map_while")
+
+
+def closure_param_range(F, f, cfgd):
+    """a closure that is handed to Iterator::map / for_each / .. over `start..end` in its parent receives start <= x < end:
+    returns (parent, du, start operand, end operand) or None"""
+    if F is None or not f.is_closure:
+        return None
+    parent = F.fn(f.parent, required=False)
+    if parent is None or not parent.mir:
+        return None
+    du = DefUse(parent)
+    mine = [st["place"]["l"] for b in parent.blocks for st in b["stmts"]
+            if st["k"] == "assign" and not st["place"]["p"] and st["rv"]["k"] == "agg" and short(st["rv"]["agg"].get("path", "")) == f.short]
+    for _bi, t in mu.calls(parent):
+        nm = callee_names(t["func"])
+        last = nm[0].rsplit("::", 1)[-1] if nm else ""
+        if last not in BY_VALUE_ADAPTORS or not any("Iterator::" + last in n for n in nm) or len(t["args"]) != 2:
+            continue
+        c = op_local(t["args"][1])
+        seen = set()
+        while c is not None and c not in mine and c not in seen:
+            # a moved copy of the closure value
+            seen.add(c)
+            d = du.sole_def(c)
+            c = op_local(d[3]["rv"]["op"]) if d is not None and d[2] == "assign" and d[3]["rv"]["k"] == "use" else None
+        if c is None or c not in mine:
+            continue
+        rng = range_of_iterator(parent, du, t["args"][0])
+        if rng is not None:
+            return parent, du, rng[0], rng[1]
+    return None
+
+
+def aff_of(fn, du, op, cfgd, depth=0, side=None):
+    """affine form {h, L, p<n> (parameter n), 1: const} of an operand, or None.
+    With `side` (a list) given, bounded unknowns are admitted as extra variables whose bounds are appended to it as guards
+    (op, affL, affR, truth): i<n> a loop variable of `start..end` (start <= i < end), m<n> a minimum (m <= each known
+    argument), and a closure parameter fed from a range by its parent."""
     if op.get("k") == "const":
         v = op.get("val")
         return {1: v} if isinstance(v, int) else None
@@ -254,11 +477,48 @@ def aff_of(fn, du, op, cfgd, depth=0):
     names = [n for n in field_names_of_place(fn, du, p) if n not in ("0", "1", "pointer")]
     if names[-1:] == [cfgd["height"]]:
         return {"h": 1}
+    l = p["l"]
+    if side is not None and [e["k"] for e in p["p"]] == ["downcast", "field"] and p["p"][0].get("variant") == "Some":
+        # x = (Iterator::next(&mut it) as Some).0 with `it` iterating start..end
+        d = du.sole_def(l)
+        if d is not None and d[2] == "call" and len(d[3]["args"]) == 2 and (callee_names(d[3]["func"]) or [""])[0].rsplit("::", 1)[-1] == "checked_sub":
+            # (checked_sub(a, b) as Some).0 == a - b, and a >= b in that arm
+            a = aff_of(fn, du, d[3]["args"][0], cfgd, depth + 1, side)
+            b = aff_of(fn, du, d[3]["args"][1], cfgd, depth + 1, side)
+            if a is None or b is None:
+                return None
+            side.append(("Ge", a, b, True))
+            out = dict(a)
+            for kk, v in b.items():
+                out[kk] = out.get(kk, 0) - v
+            return out
+        if d is not None and d[2] == "call" and d[3]["args"] and \
+                any(n.endswith("Iterator::next") or n.endswith("DoubleEndedIterator::next_back") for n in callee_names(d[3]["func"])):
+            rng = range_of_iterator(fn, du, d[3]["args"][0])
+            if rng is not None:
+                lo = aff_of(fn, du, rng[0], cfgd, depth + 1, side)
+                hi = aff_of(fn, du, rng[1], cfgd, depth + 1, side)
+                if lo is not None and hi is not None:
+                    var = "i%d" % l
+                    side.append(("Ge", {var: 1}, lo, True))
+                    side.append(("Lt", {var: 1}, hi, True))
+                    return {var: 1}
+        return None
     if p["p"] and not all(e["k"] == "field" and e["name"] in ("0", "1") for e in p["p"]):
         return None
-    l = p["l"]
-    if 1 <= l <= fn.mir["arg_count"] and not [d for d in du.defs.get(l, []) if not d[3].get("place", d[3].get("dest"))["p"]]:
-        return {"p%d" % l: 1}
+    first_param = 2 if fn.is_closure else 1
+    if first_param <= l <= fn.mir["arg_count"] and not [d for d in du.defs.get(l, []) if not d[3].get("place", d[3].get("dest"))["p"]]:
+        var = "p%d" % l
+        if side is not None and fn.is_closure and l == 2 and not p["p"]:
+            pr = closure_param_range(cfgd.get("F"), fn, cfgd)
+            if pr is not None:
+                parent, pdu, lo_op, hi_op = pr
+                lo = aff_of(parent, pdu, lo_op, cfgd, depth + 1)
+                hi = aff_of(parent, pdu, hi_op, cfgd, depth + 1)
+                if lo is not None and hi is not None and all(k in ("h", "L", 1) for k in list(lo) + list(hi)):
+                    side.append(("Ge", {var: 1}, lo, True))
+                    side.append(("Lt", {var: 1}, hi, True))
+        return {var: 1}
     d = du.sole_def(l)
     if d is None:
         return None
@@ -269,14 +529,24 @@ def aff_of(fn, du, op, cfgd, depth=0):
             a0 = op_place(t["args"][0])
             if a0 is not None and cfgd["bound"][1] in field_names_of_place(fn, du, a0):
                 return {"L": 1}
+        if last == "min" and side is not None and len(t["args"]) == 2 and not p["p"]:
+            a = aff_of(fn, du, t["args"][0], cfgd, depth + 1, side)
+            b = aff_of(fn, du, t["args"][1], cfgd, depth + 1, side)
+            if a is None and b is None:
+                return None
+            var = "m%d" % l
+            for x in (a, b):
+                if x is not None:
+                    side.append(("Le", {var: 1}, x, True))
+            return {var: 1}
         return None
     rv = d[3]["rv"]
     k = rv["k"]
     if k in ("use", "cast"):
-        return aff_of(fn, du, rv["op"], cfgd, depth + 1)
+        return aff_of(fn, du, rv["op"], cfgd, depth + 1, side)
     if k == "bin" and rv["op"] in ("Add", "AddWithOverflow", "Sub", "SubWithOverflow", "AddUnchecked", "SubUnchecked"):
-        a = aff_of(fn, du, rv["l"], cfgd, depth + 1)
-        b = aff_of(fn, du, rv["r"], cfgd, depth + 1)
+        a = aff_of(fn, du, rv["l"], cfgd, depth + 1, side)
+        b = aff_of(fn, du, rv["r"], cfgd, depth + 1, side)
         if a is None or b is None:
             return None
         sign = 1 if rv["op"].startswith("Add") else -1
@@ -291,36 +561,13 @@ def aff_of(fn, du, op, cfgd, depth=0):
     return None
 
 
-def aff_guards(fn, du, block, cfgd):
-    cfg = fn.cfg
+def aff_guards(fn, du, block, cfgd, side=None):
     out = []
-    for g in cfg.dom.get(block, ()):
-        if g == block:
-            continue
-        t = fn.blocks[g]["term"]
-        if t["k"] != "switch":
-            continue
-        cond = op_local(t["discr"])
-        st = None
-        for s_ in fn.blocks[g]["stmts"]:
-            if s_["k"] == "assign" and s_["place"]["l"] == cond and s_["rv"]["k"] == "bin" and s_["rv"]["op"] in CMP:
-                st = s_
-        if st is None:
-            continue
-        zero = dict((v, bb) for v, bb in t["targets"]).get(0)
-        if zero is None:
-            continue
-        true_t = t["otherwise"]
-        if cfg.dominates(true_t, block) and not cfg.dominates(zero, block):
-            truth = True
-        elif cfg.dominates(zero, block) and not cfg.dominates(true_t, block):
-            truth = False
-        else:
-            continue
-        a = aff_of(fn, du, st["rv"]["l"], cfgd)
-        b = aff_of(fn, du, st["rv"]["r"], cfgd)
+    for op, l, r, truth, _g in cond_guards(fn, du, block):
+        a = aff_of(fn, du, l, cfgd, side=side)
+        b = aff_of(fn, du, r, cfgd, side=side)
         if a is not None and b is not None:
-            out.append((st["rv"]["op"], a, b, truth))
+            out.append((op, a, b, truth))
     return out
 
 
@@ -328,12 +575,16 @@ def aff_eval(a, env):
     return sum(v * (env[k] if k != 1 else 1) for k, v in a.items())
 
 
-def aff_implied(guards, idx, hmax=6, pmax=7):
-    """for all small heights, capacities and parameter values consistent with the guards: 0 <= idx < height ?"""
-    params = sorted(set(k for g in guards for a in (g[1], g[2]) for k in a if isinstance(k, str) and k.startswith("p")) |
-                    set(k for k in idx if isinstance(k, str) and k.startswith("p")))
+def aff_implied(guards, idx, hmax=6, pmax=7, pred=None):
+    """for all small heights, capacities and values of the other variables consistent with the guards: 0 <= idx < height ?
+    (`pred(value, height, capacity)` replaces that requirement when given)"""
     import itertools
+    if pred is None:
+        pred = lambda v, h, L: 0 <= v < h
+    params = sorted(set(k for g in guards for a in (g[1], g[2]) for k in a if isinstance(k, str) and k not in ("h", "L")) |
+                    set(k for k in idx if isinstance(k, str) and k not in ("h", "L")))
     seen_state = False
+    fallback = None
     for L in range(0, hmax):
         for h in range(0, L + 1):
             for pv in itertools.product(range(0, pmax), repeat=len(params)):
@@ -342,104 +593,675 @@ def aff_implied(guards, idx, hmax=6, pmax=7):
                 if all(CMP[op](aff_eval(a, env), aff_eval(b, env)) == truth for op, a, b, truth in guards):
                     seen_state = True
                     v = aff_eval(idx, env)
-                    if not (0 <= v < h):
-                        return False, env
+                    if not pred(v, h, L):
+                        if L >= 2:
+                            return False, env
+                        fallback = fallback or env      # keep looking for a less degenerate capacity to show
+    if fallback is not None:
+        return False, fallback
     return seen_state, None
 
 
+S_PASSTHROUGH = ("deref", "deref_mut", "as_ref", "as_mut", "borrow", "borrow_mut", "as_slice", "as_mut_slice")
+S_TO_POINTER = ("as_ptr", "as_mut_ptr")
+S_NO_ELEMENT = ("len", "is_empty") + S_PASSTHROUGH + S_TO_POINTER
+S_WRITE_ONLY = ("fill", "fill_with")
+S_ELEMENT = ("get", "get_mut", "get_unchecked", "get_unchecked_mut", "index", "index_mut")
+S_FIRST = ("first", "first_mut", "split_first", "split_first_mut")
+P_STEP = ("add", "offset", "wrapping_add", "wrapping_offset")
+P_READ = ("read", "read_volatile", "read_unaligned")
+P_SLICE = ("from_raw_parts", "from_raw_parts_mut")
+P_NO_ELEMENT = ("is_null", "is_aligned")
+
+
+def height_stores_before(f, du, cfgd, site):
+    """net change of the height field made by the stores that execute before program point `site` on every path to it:
+    (offset, exact) - exact is False when one of them is not of the form height +/- k"""
+    cfg = f.cfg
+    total, exact = 0, True
+    for b2, blk in enumerate(f.blocks):
+        for s2, st in enumerate(blk["stmts"]):
+            if st["k"] != "assign" or not st["place"]["p"] or st["place"]["p"][-1]["k"] not in ("field", "deref") or st["rv"]["k"] == "agg":
+                continue
+            names = [n for n in field_names_of_place(f, du, st["place"]) if n not in ("0", "1", "pointer")]
+            if names[-1:] != [cfgd["height"]] or not site_precedes(cfg, (b2, s2), site):
+                continue
+            if st["rv"]["k"] == "use":
+                stored = lin_of(f, du, st["rv"]["op"], cfgd)
+            elif st["rv"]["k"] == "bin" and st["rv"]["op"] in ("Add", "Sub", "AddUnchecked", "SubUnchecked"):
+                stored = lin_bin(f, du, st["rv"], cfgd)
+            else:
+                stored = Lin(("other", "store"))
+            if stored.base == ("h",):
+                total += stored.off
+            else:
+                exact = False
+    return total, exact
+
+
+def at_entry(f, du, op, cfgd, site):
+    """linear form of `op` (used at `site`) over the height the method was entered with: a value that reads the height field
+    after the method itself has stored height +/- k into it is shifted by that k. None when such a store is not understood."""
+    lin = lin_of(f, du, op, cfgd)
+    if lin.base != ("h",) and not (lin.base[0] == "sat" and lin.base[1] == ("h",)):
+        return lin
+    rsite = height_read_site(f, du, op, cfgd, site)
+    if rsite is None:
+        return lin
+    shift, exact = height_stores_before(f, du, cfgd, rsite)
+    if not exact:
+        return None
+    if shift == 0:
+        return lin
+    if lin.base == ("h",):
+        out = Lin(("h",), lin.off + shift)
+        if getattr(lin, "implied_ge", None) is not None:
+            out.implied_ge = (lin.implied_ge[0], lin.implied_ge[1] - shift)
+        return out
+    return None
+
+
+def entry_guards(f, du, block, cfgd):
+    """guards_on_path with both sides expressed over the height at entry (see at_entry); a guard that cannot be is dropped"""
+    out = []
+    for op, a, b, truth, g in cond_guards(f, du, block):
+        la, lb = at_entry(f, du, a, cfgd, (g, "term")), at_entry(f, du, b, cfgd, (g, "term"))
+        if la is not None and lb is not None:
+            out.append((op, la, lb, truth))
+    return out
+
+
+def storage_kind(F, f, du, l, cfgd, depth=0):
+    """'S' when local l holds the stack's whole storage (the box, a reference or raw pointer to the slice), 'P' when it holds
+    a pointer to slot 0 of it (`as_ptr()`), None otherwise. Followed through copies, casts, (re)borrows, Deref/AsRef calls and
+    - in a closure - through the captured variables into the function that built the closure."""
+    store = cfgd["store"]
+    seen = set()
+    while l is not None and l not in seen and depth < 6:
+        seen.add(l)
+        d = du.sole_def(l)
+        if d is None:
+            return None
+        if d[2] == "call":
+            t = d[3]
+            nm = callee_names(t["func"])
+            last = nm[0].rsplit("::", 1)[-1] if nm else ""
+            a0 = op_local(t["args"][0]) if t["args"] else None
+            if a0 is None or last not in S_PASSTHROUGH + S_TO_POINTER:
+                return None
+            k = storage_kind(F, f, du, a0, cfgd, depth + 1)
+            if k == "S":
+                return "P" if last in S_TO_POINTER else "S"
+            return None
+        rv = d[3]["rv"]
+        if rv["k"] in ("use", "cast"):
+            pl = op_place(rv["op"])
+        elif rv["k"] in ("ref", "rawptr"):
+            pl = rv["place"]
+        else:
+            return None
+        if pl is None or any(e["k"] not in ("deref", "field", "downcast") for e in pl["p"]):
+            return None
+        fields = [e["name"][len("self__"):] if e["name"].startswith("self__") else e["name"] for e in pl["p"] if e["k"] == "field"]
+        if store in fields:
+            return "S"
+        if f.is_closure and pl["l"] == 1 and fields:
+            # a captured variable: what did the parent put there?
+            idx = [i for i, c in enumerate(f.captures) if c.get("name") == fields[0]]
+            parent = F.fn(f.parent, required=False) if F is not None else None
+            if not idx or parent is None or not parent.mir:
+                return None
+            pdu = DefUse(parent)
+            for b in parent.blocks:
+                for st in b["stmts"]:
+                    if st["k"] == "assign" and st["rv"]["k"] == "agg" and short(st["rv"]["agg"].get("path", "")) == f.short \
+                            and idx[0] < len(st["rv"]["ops"]):
+                        cl = op_local(st["rv"]["ops"][idx[0]])
+                        return storage_kind(F, parent, pdu, cl, cfgd, depth + 1) if cl is not None else None
+            return None
+        if fields and [n for n in fields if n not in ("0", "pointer")]:
+            return None
+        l = pl["l"]
+    return None
+
+
+def ref_is_read(f, l, seen=None):
+    """can the element behind the reference / pointer held in local l be read, or the reference leave the function?
+    False: it is only stored through (`*r = v`, `ptr::write(r, v)`), directly or through reborrows and moved copies."""
+    seen = set() if seen is None else seen
+    if l in seen:
+        return False
+    seen.add(l)
+    for b in f.blocks:
+        for st in b["stmts"]:
+            if st["k"] != "assign":
+                continue
+            dest, rv = st["place"], st["rv"]
+            for pl in rvalue_places(rv):
+                if pl["l"] != l:
+                    continue
+                if rv["k"] == "discr":
+                    continue        # which variant an Option<&mut T> is: no element read
+                reborrow = rv["k"] in ("ref", "rawptr") and len(pl["p"]) == 1 and pl["p"][0]["k"] == "deref"
+                # moved as a whole, or taken out of the Some(..) / Ok(..) it was returned in
+                moved = rv["k"] in ("use", "cast") and all(e["k"] in ("downcast", "field") for e in pl["p"])
+                if (reborrow or moved) and not dest["p"] and dest["l"] != 0:
+                    if ref_is_read(f, dest["l"], seen):
+                        return True
+                else:
+                    return True
+        t = b["term"]
+        if t["k"] == "call":
+            nm = callee_names(t["func"])
+            last = nm[0].rsplit("::", 1)[-1] if nm else ""
+            for ai, a in enumerate(t["args"]):
+                pl = op_place(a)
+                if pl is not None and pl["l"] == l:
+                    if ai == 0 and not pl["p"] and last in ("write", "write_volatile", "write_unaligned"):
+                        continue
+                    return True
+        elif t["k"] == "switch":
+            pl = op_place(t["discr"])
+            if pl is not None and pl["l"] == l:
+                return True
+    return False
+
+
+def range_end(f, du, op, ty):
+    """the upper end of a range-typed index operand: ('end', operand, inclusive) | ('open',) | None (not understood)"""
+    if op.get("k") == "const":
+        return ("open",) if "RangeFull" in ty else None
+    l = op_local(op)
+    d = du.sole_def(l) if l is not None else None
+    if d is None:
+        return None
+    if d[2] == "call":
+        if any(n.endswith("RangeInclusive::new") for n in callee_names(d[3]["func"])) and len(d[3]["args"]) == 2:
+            return ("end", d[3]["args"][1], True)
+        return None
+    rv = d[3]["rv"]
+    if rv["k"] == "use":
+        return range_end(f, du, rv["op"], ty)
+    if rv["k"] != "agg" or rv["agg"].get("k") != "adt":
+        return None
+    name = short(rv["agg"].get("path", "")).rsplit("::", 1)[-1]
+    ops = rv["ops"]
+    if name == "Range" and len(ops) == 2:
+        return ("end", ops[1], False)
+    if name == "RangeTo" and len(ops) == 1:
+        return ("end", ops[0], False)
+    if name == "RangeToInclusive" and len(ops) == 1:
+        return ("end", ops[0], True)
+    if name in ("RangeFrom", "RangeFull"):
+        return ("open",)
+    return None
+
+
+def storage_reads(F, f, du, cfgd):
+    """Every point of f where elements of the stack's storage are read or handed out, in program order. Each entry is
+    (block, line, spec):
+      ('elem', index operand, how)         one slot: `data[i]`, `&data[i]` (unless only stored through), get/get_unchecked/
+                                           index(i), first(), `ptr.add(i)` / `*ptr` / ptr.read() on the storage pointer
+      ('range', end operand, inclusive, how)  the slots below an end: data[a..b], get(a..b), from_raw_parts(ptr, n)
+      ('open', how)                        all slots up to the end of the storage: data[a..], data[..]
+      ('whole', how)                       the storage is passed to something whose element accesses are not modelled
+      ('fmt', how)                         the storage is passed to a formatter (derived Debug): diagnostics, not a stack read"""
+    out = []
+    kinds = {}
+
+    def kind(l):
+        if l not in kinds:
+            kinds[l] = storage_kind(F, f, du, l, cfgd)
+        return kinds[l]
+
+    def place_sink(pl, bi, ln, as_ref_into=None):
+        base = kind(pl["l"])
+        if base is None:
+            return
+        if base == "S":
+            idx = [e for e in pl["p"] if e["k"] == "index"]
+            odd = [e for e in pl["p"] if e["k"] not in ("deref", "field", "downcast", "index")]
+            if odd:
+                out.append((bi, ln, ("whole", "a %s projection" % odd[0]["k"])))
+            elif idx:
+                if as_ref_into is not None and not ref_is_read(f, as_ref_into):
+                    return
+                out.append((bi, ln, ("elem", {"k": "copy", "place": {"l": idx[0]["local"], "p": []}}, "data[i]")))
+        elif base == "P" and as_ref_into is None and pl["p"] and pl["p"][0]["k"] == "deref":
+            out.append((bi, ln, ("elem", {"k": "const", "val": 0, "ty": "usize"}, "*ptr")))
+
+    for bi, b in enumerate(f.blocks):
+        for st in b["stmts"]:
+            if st["k"] != "assign":
+                continue
+            rv = st["rv"]
+            for pl in rvalue_places(rv):
+                if not pl["p"]:
+                    continue
+                if rv["k"] in ("ref", "rawptr"):
+                    if [e for e in pl["p"] if e["k"] == "index"]:
+                        place_sink(pl, bi, st.get("ln"), as_ref_into=st["place"]["l"] if not st["place"]["p"] else None)
+                else:
+                    place_sink(pl, bi, st.get("ln"))
+        t = b["term"]
+        if t["k"] != "call":
+            continue
+        nm = callee_names(t["func"])
+        last = nm[0].rsplit("::", 1)[-1] if nm else "?"
+        tys = t.get("arg_tys") or []
+        for ai, a in enumerate(t["args"]):
+            pl = op_place(a)
+            if pl is None:
+                continue
+            if pl["p"]:
+                place_sink(pl, bi, t.get("ln"))
+                continue
+            k = kind(pl["l"])
+            if k is None:
+                continue
+            how = "%s()" % last
+            if any(n.startswith("std::fmt::") or n.startswith("core::fmt::") for n in nm):
+                out.append((bi, t.get("ln"), ("fmt", how)))
+            elif k == "S":
+                if ai == 0 and last in S_NO_ELEMENT + S_WRITE_ONLY:
+                    continue
+                if ai == 0 and last in S_ELEMENT + S_FIRST and last.endswith("_mut") and not t["dest"]["p"] and t["dest"]["l"] != 0 \
+                        and not ref_is_read(f, t["dest"]["l"]):
+                    continue        # the slot(s) are only stored into
+                if ai == 0 and last in S_ELEMENT and len(t["args"]) == 2:
+                    ty = tys[1] if len(tys) > 1 else ""
+                    if ty == "usize":
+                        out.append((bi, t.get("ln"), ("elem", t["args"][1], how)))
+                        continue
+                    r = range_end(f, du, t["args"][1], ty) if "Range" in ty else None
+                    if r is not None and r[0] == "end":
+                        out.append((bi, t.get("ln"), ("range", r[1], r[2], how)))
+                        continue
+                    if r is not None:
+                        out.append((bi, t.get("ln"), ("open", how)))
+                        continue
+                if ai == 0 and last in S_FIRST:
+                    out.append((bi, t.get("ln"), ("elem", {"k": "const", "val": 0, "ty": "usize"}, how)))
+                    continue
+                out.append((bi, t.get("ln"), ("whole", how)))
+            else:
+                if ai == 0 and last in P_NO_ELEMENT:
+                    continue
+                if ai == 0 and last in P_STEP and len(t["args"]) == 2:
+                    out.append((bi, t.get("ln"), ("elem", t["args"][1], "ptr.%s" % how)))
+                elif ai == 0 and last in P_READ:
+                    out.append((bi, t.get("ln"), ("elem", {"k": "const", "val": 0, "ty": "usize"}, "ptr.%s" % how)))
+                elif ai == 0 and last in P_SLICE and len(t["args"]) == 2:
+                    out.append((bi, t.get("ln"), ("range", t["args"][1], False, how)))
+                else:
+                    out.append((bi, t.get("ln"), ("whole", "ptr -> %s" % how)))
+    # the storage itself as the function's result
+    if kind(0) is not None:
+        out.append((len(f.blocks) - 1, None, ("whole", "returned to the caller")))
+    return out
+
+
+def aff_text(f, aff):
+    """an affine form in words: {'h': 1, 'p2': -1, 1: -1} -> 'height - n - 1'"""
+    def name(k):
+        if k == "h":
+            return "height"
+        if k == "L":
+            return "capacity"
+        if k.startswith("p") and k[1:].isdigit():
+            return f.local_name(int(k[1:])) or "argument %s" % k[1:]
+        if k.startswith("i") and k[1:].isdigit():
+            return "loop variable %s" % (f.local_name(int(k[1:])) or k)
+        return k
+    terms = []
+    for k in sorted((k for k in aff if k != 1), key=lambda k: (aff[k] < 0, str(k))):
+        if aff[k]:
+            terms.append((aff[k], name(k) if abs(aff[k]) == 1 else "%d*%s" % (abs(aff[k]), name(k))))
+    if aff.get(1, 0) or not terms:
+        terms.append((aff.get(1, 0), "%d" % abs(aff.get(1, 0))))
+    out = ""
+    for c, t in terms:
+        out += (" - " if c < 0 else " + ") + t if out else ("-" if c < 0 else "") + t
+    return out
+
+
+def state_text(f, env):
+    """a counterexample state of aff_implied in words"""
+    if not env:
+        return "no admitted state"
+    parts = ["height %d" % env["h"], "capacity %d" % env["L"]]
+    for k in sorted(k for k in env if k not in ("h", "L")):
+        if k.startswith("p") and k[1:].isdigit():
+            parts.append("%s = %d" % (f.local_name(int(k[1:])) or "argument %s" % k[1:], env[k]))
+        else:
+            parts.append("%s = %d" % (k, env[k]))
+    return ", ".join(parts)
+
+
 def rule_n(F):
-    """C14.N: every element the value stack hands out is a live one: an indexed read of `data` at height+off happens only
-    where the guards imply 0 <= height+off < height (a read at or beyond the height must produce nil instead: pop_n and
-    clear_until lower the height without clearing the slots, so the slots above it hold stale values)."""
+    """C14.N: every element the value stack hands out is a live one. Every way the storage `data` is read - `data[i]`,
+    `&data[i]` that is read through, get / get_unchecked / index with an index or a range, first(), the storage pointer
+    (`as_ptr().add(i)`, `*ptr`, from_raw_parts) - happens only where the guards imply that the slot(s) lie below the height
+    (a read at or beyond the height must produce nil instead: pop_n and clear_until lower the height without clearing the
+    slots, so the slots above it hold stale values). A use of the storage whose element accesses are not modelled is
+    undecided, never ok."""
     res = []
     adt = "collections::value_stack::ValueStack"
-    cfgd = STACKS[adt]
+    cfgd = ctx(F, adt)
     n = 0
-    for f in stack_fns(F, adt):
-        du = DefUse(f)
+    fns = stack_fns(F, adt)
+    dus = dict((id(f), DefUse(f)) for f in fns)
+    reads = dict((id(f), storage_reads(F, f, dus[id(f)], cfgd)) for f in fns)
+    # methods (with their closures) that read the storage themselves
+    readers = set()
+    for f in fns:
+        if [r for r in reads[id(f)] if r[2][0] != "fmt"]:
+            readers.add(f.root if f.is_closure else f.short)
+    # .. or get their elements from such a method called on the same stack (transitively)
+    self_calls = {}
+    for f in fns:
+        me = f.root if f.is_closure else f.short
+        for bi, t in mu.calls(f):
+            if t["args"] and is_self_arg(f, dus[id(f)], t["args"][0], cfgd):
+                for x in callee_names(t["func"]):
+                    if x != me and F.fn(x, required=False) is not None:
+                        self_calls.setdefault(id(f), []).append((bi, t, x))
+    grew = True
+    while grew:
+        grew = False
+        for f in fns:
+            me = f.root if f.is_closure else f.short
+            if me not in readers and any(x in readers for _bi, _t, x in self_calls.get(id(f), [])):
+                readers.add(me)
+                grew = True
+    for f in fns:
+        du = dus[id(f)]
         fname = (f.root or f.short).rsplit("::", 1)[-1] + ("{closure}" if f.is_closure else "")
         inherited = closure_guard(F, f, cfgd)
         k = 0
-        # `mem::replace(&mut data[i], v)` / `mem::take` / `ptr::read` hand the old element out as well
-        taken_refs = set()
-        for _bi, t in mu.calls(f):
-            if any(n_.endswith("mem::replace") or n_.endswith("mem::take") or n_.endswith("ptr::read") or n_.endswith("mem::swap")
-                   for n_ in callee_names(t["func"])) and t["args"]:
-                l0 = op_local(t["args"][0])
-                seen0 = set()
-                while l0 is not None and l0 not in seen0:
-                    seen0.add(l0)
-                    taken_refs.add(l0)
-                    d0 = du.sole_def(l0)
-                    if d0 is None or d0[2] != "assign" or d0[3]["rv"]["k"] not in ("ref", "rawptr", "use"):
-                        break
-                    pl0 = d0[3]["rv"].get("place") or op_place(d0[3]["rv"].get("op"))
-                    if pl0 is None or [e for e in pl0["p"] if e["k"] == "index"]:
-                        break
-                    l0 = pl0["l"] if all(e["k"] == "deref" for e in pl0["p"]) else None
-        for bi, b in enumerate(f.blocks):
-            for st in b["stmts"]:
-                if st["k"] != "assign":
-                    continue
-                if st["rv"]["k"] == "use":
-                    pl = op_place(st["rv"]["op"])
-                elif st["rv"]["k"] in ("ref", "rawptr") and st["place"]["l"] in taken_refs and not st["place"]["p"]:
-                    pl = st["rv"]["place"]
-                else:
-                    continue
-                if pl is None:
-                    continue
-                idx = [e for e in pl["p"] if e["k"] == "index"]
-                if not idx:
-                    continue
-                base_names = field_names_of_place(f, du, {"l": pl["l"], "p": []})
-                if cfgd["bound"][1] not in base_names:
-                    continue
-                lin = lin_of(f, du, {"k": "copy", "place": {"l": idx[0]["local"], "p": []}}, cfgd)
-                guards = guards_on_path(f, du, bi, cfgd) + inherited
-                ig = getattr(lin, "implied_ge", None)
-                if ig is not None and ig[0] == ("h",):
-                    guards = guards + [("Ge", Lin(("h",)), Lin(("const",), ig[1]), True)]
+        # elements obtained through another method of the stack (last() = peek_last(0), Display over as_slice()): that
+        # method's own reads are decided where they happen; the call site stands for the read it replaced
+        delegated = []
+        for bi, t, x in self_calls.get(id(f), []):
+            if x in readers and not [d for d in delegated if d[3] is t]:
+                delegated.append((bi, t.get("ln"), ("delegated", x.rsplit("::", 1)[-1]), t))
+        delegated = [d[:3] for d in delegated]
+        for bi, ln, spec in reads[id(f)] + delegated:
+            loc = f.loc(ln)
+            if spec[0] == "delegated":
                 key = "C14/N/ValueStack::%s/read%s-is-below-height" % (fname, "" if k == 0 else "#%d" % k)
                 k += 1
-                loc = f.loc(st.get("ln"))
-                if lin.base == ("h",):
-                    off = lin.off
+                n += 1
+                res.append(ok("C14.N", key, loc, "takes its elements from ValueStack::%s on the same stack, whose reads of the storage are "
+                              "decided there" % spec[1]))
+                continue
+            if spec[0] == "fmt":
+                res.append(note("C14.N", "C14/N/ValueStack::%s/storage-formatted" % fname, loc,
+                                "the storage is handed to a formatter (%s): diagnostic output, not a stack read" % spec[1]))
+                continue
+            key = "C14/N/ValueStack::%s/read%s-is-below-height" % (fname, "" if k == 0 else "#%d" % k)
+            k += 1
+            if spec[0] == "whole":
+                res.append(undecided("C14.N", key, loc, "ValueStack::%s passes the whole storage, slots above the height included, on (%s): "
+                                     "which elements are read there is not modelled" % (fname, spec[1])))
+                continue
+            if spec[0] == "open":
+                n += 1
+                res.append(bad("C14.N", key, loc, "ValueStack::%s takes the storage up to its end (%s), not up to the height: the slots at and "
+                               "above the height hold the stale values pop_n / clear_until left there" % (fname, spec[1])))
+                continue
+            if spec[0] == "range":
+                _tag, end_op, inclusive, how = spec
+                side = []
+                aff = aff_of(f, du, end_op, cfgd, side=side)
+                lin = lin_of(f, du, end_op, cfgd)
+                limit = -1 if inclusive else 0
+                pred = (lambda v, h, L: v < h) if inclusive else (lambda v, h, L: v <= h)
+                if aff is not None:
                     n += 1
-                    if off < 0 and implied(guards, lambda h, L, off=off: h + off >= 0):
-                        res.append(ok("C14.N", key, loc, "reads slot height%+d under a guard that implies height >= %d" % (off, -off)))
+                    good, cex = aff_implied(aff_guards(f, du, bi, cfgd, side=side) + side, aff, pred=pred)
+                    if good:
+                        res.append(ok("C14.N", key, loc, "%s hands out slots below %s, which is at most the height" % (how, aff)))
                     else:
-                        res.append(bad("C14.N", key, loc, "ValueStack::%s reads slot height%+d without a guard that keeps it below the height: "
-                                       "a stale value left by pop_n / clear_until is returned where nil is due" % (fname, off)))
-                elif lin.base[0] == "sat" and lin.base[1] == ("h",):
-                    off = lin.base[2]
+                        res.append(bad("C14.N", key, loc, "ValueStack::%s hands out the slots below %s (%s), which can reach beyond the height "
+                                       "(%s): stale values left by pop_n / clear_until are handed out" % (fname, aff_text(f, aff), how, state_text(f, cex))))
+                elif (lin.base == ("h",) and lin.off <= limit) or (lin.base[0] == "sat" and lin.base[1] == ("h",) and lin.base[2] <= limit) \
+                        or (lin.base[0] == "min" and (("h",), 0) in lin.base[1:] and not inclusive):
                     n += 1
-                    if implied(guards, lambda h, L, off=off: h + off >= 0):
-                        res.append(ok("C14.N", key, loc, "reads slot max(height%+d, 0) where the guard implies height >= %d" % (off, -off)))
-                    else:
-                        res.append(bad("C14.N", key, loc,
-                                       "ValueStack::%s reads slot max(height%+d, 0): on an empty stack that is slot 0, which holds whatever "
-                                       "pop_n / clear_until left there - a read at or beyond the height must be nil" % (fname, off)))
+                    res.append(ok("C14.N", key, loc, "%s hands out slots below %r, which is at most the height" % (how, lin)))
                 else:
-                    aff = aff_of(f, du, {"k": "copy", "place": {"l": idx[0]["local"], "p": []}}, cfgd)
-                    if aff is None:
-                        res.append(note("C14.N", key, loc, "index is not an affine form of height and parameters (loop index): not decided here"))
+                    res.append(undecided("C14.N", key, loc, "end of the range of slots handed out (%s) is not an affine form of height and "
+                                         "parameters" % how))
+                continue
+            _tag, idx_op, how = spec
+            via = "" if how == "data[i]" else " (%s)" % how
+            # the slot must have been live when the method was entered: index and guards are taken over the height at entry
+            # (`count -= 1; data[count]` reads slot entry-height - 1)
+            lin = at_entry(f, du, idx_op, cfgd, (bi, "term"))
+            if lin is None:
+                res.append(undecided("C14.N", key, loc, "index of the slot read%s follows a store to the height that is not of the form "
+                                     "height +/- k: not decided" % via))
+                continue
+            guards = entry_guards(f, du, bi, cfgd) + inherited
+            ig = getattr(lin, "implied_ge", None)
+            if ig is not None and ig[0] == ("h",):
+                guards = guards + [("Ge", Lin(("h",)), Lin(("const",), ig[1]), True)]
+            if lin.base == ("h",):
+                off = lin.off
+                n += 1
+                if off < 0 and implied(guards, lambda h, L, off=off: h + off >= 0):
+                    res.append(ok("C14.N", key, loc, "reads slot height%+d%s under a guard that implies height >= %d" % (off, via, -off)))
+                else:
+                    res.append(bad("C14.N", key, loc, "ValueStack::%s reads slot height%+d%s without a guard that keeps it below the height: "
+                                   "a stale value left by pop_n / clear_until is returned where nil is due" % (fname, off, via)))
+            elif lin.base[0] == "sat" and lin.base[1] == ("h",):
+                off = lin.base[2]
+                n += 1
+                if implied(guards, lambda h, L, off=off: h + off >= 0):
+                    res.append(ok("C14.N", key, loc, "reads slot max(height%+d, 0)%s where the guard implies height >= %d" % (off, via, -off)))
+                else:
+                    res.append(bad("C14.N", key, loc,
+                                   "ValueStack::%s reads slot max(height%+d, 0)%s: on an empty stack that is slot 0, which holds whatever "
+                                   "pop_n / clear_until left there - a read at or beyond the height must be nil" % (fname, off, via)))
+            else:
+                side = []
+                aff = aff_of(f, du, idx_op, cfgd, side=side)
+                if aff is None:
+                    res.append(undecided("C14.N", key, loc, "index of the slot read%s is not an affine form of height, parameters and loop "
+                                         "variables: not decided" % via))
+                else:
+                    n += 1
+                    good, cex = aff_implied(aff_guards(f, du, bi, cfgd, side=side) + side, aff)
+                    if good:
+                        res.append(ok("C14.N", key, loc, "index %s%s is below the height in every state the guards admit" % (aff, via)))
                     else:
-                        n += 1
-                        good, cex = aff_implied(aff_guards(f, du, bi, cfgd), aff)
-                        if good:
-                            res.append(ok("C14.N", key, loc, "index %s is below the height in every state the guards admit" % aff))
-                        else:
-                            res.append(bad("C14.N", key, loc, "ValueStack::%s reads slot %s which can be at or beyond the height (%s): a stale value "
-                                           "is returned where nil is due" % (fname, aff, cex)))
+                        res.append(bad("C14.N", key, loc, "ValueStack::%s reads slot `%s`%s which can be at or beyond the height (%s): a stale value "
+                                       "is returned where nil is due" % (fname, aff_text(f, aff), via, state_text(f, cex))))
     if n < 2:
         raise AnchorMissing("height-relative reads of ValueStack.data (found %d)" % n)
     return res
 
 
+def height_read_site(fn, du, op, cfgd, site, depth=0):
+    """where the height field is read from memory for the value of `op`: (block, statement index | 'term'), None if it is not
+    derived from the height. `site` is where `op` itself is used."""
+    p = op_place(op)
+    if p is None or depth > 12:
+        return None
+    if p["p"]:
+        names = [n for n in field_names_of_place(fn, du, p) if n not in ("0", "1", "pointer")]
+        if names[-1:] == [cfgd["height"]]:
+            return site
+    d = du.sole_def(p["l"])
+    if d is None:
+        return None
+    here = (d[0], d[1])
+    if d[2] == "call":
+        t = d[3]
+        if call_passthrough(fn, du, t, {"l": p["l"], "p": []}, cfgd) is not None and \
+                (t["func"].get("local") or t["func"].get("resolved_local")):
+            return here         # read inside the stack's own helper
+        for a in t["args"]:
+            r = height_read_site(fn, du, a, cfgd, here, depth + 1)
+            if r is not None:
+                return r
+        return None
+    rv = d[3]["rv"]
+    if rv["k"] in ("use", "cast"):
+        return height_read_site(fn, du, rv["op"], cfgd, here, depth + 1)
+    if rv["k"] == "bin":
+        return height_read_site(fn, du, rv["l"], cfgd, here, depth + 1) or height_read_site(fn, du, rv["r"], cfgd, here, depth + 1)
+    return None
+
+
+def site_precedes(cfg, a, b):
+    """does program point a = (block, index) execute before point b on every path to b?"""
+    if a[0] == b[0]:
+        return b[1] == "term" or (a[1] != "term" and a[1] < b[1])
+    return cfg.dominates(a[0], b[0])
+
+
+ITER_ADAPTORS = ("into_iter", "rev", "by_ref", "zip", "enumerate", "take", "skip", "copied", "cloned", "peekable", "map", "inspect",
+                 "step_by", "take_while", "skip_while", "filter", "fuse")
+
+
+def yields_at_most_height(F, f, du, op, cfgd, depth=0):
+    """does the iterator operand yield at most `height` items? It does when it is (an adaptor that cannot lengthen) an
+    iterator over a sub-slice of the storage that ends at or below the height, or over a range 0..e with e <= height;
+    for zip one side suffices."""
+    l = op_local(op)
+    seen = set()
+    while l is not None and l not in seen and depth < 8:
+        seen.add(l)
+        d = du.sole_def(l)
+        if d is None:
+            return False
+        if d[2] == "call":
+            t = d[3]
+            nm = callee_names(t["func"])
+            last = nm[0].rsplit("::", 1)[-1] if nm else ""
+            if last in ITER_ADAPTORS and t["args"] and any("iter::" in x for x in nm):
+                sides = t["args"][:2] if last == "zip" else t["args"][:1]
+                return any(yields_at_most_height(F, f, du, a, cfgd, depth + 1) for a in sides)
+            if last in ("iter", "iter_mut") and t["args"] and any("slice::" in x for x in nm):
+                return live_subslice(F, f, du, t["args"][0], cfgd)
+            return False
+        rv = d[3]["rv"]
+        if rv["k"] == "use":
+            l = op_local(rv["op"])
+        elif rv["k"] == "ref" and (not rv["place"]["p"] or all(e["k"] == "deref" for e in rv["place"]["p"])):
+            l = rv["place"]["l"]
+        elif rv["k"] == "agg":
+            rng = range_of_iterator(f, du, {"k": "copy", "place": {"l": l, "p": []}})
+            if rng is None:
+                return False
+            side = []
+            lo, hi = aff_of(f, du, rng[0], cfgd, side=side), aff_of(f, du, rng[1], cfgd, side=side)
+            return lo is not None and hi is not None and not [k for k in lo if k != 1] and lo.get(1, 0) >= 0 and \
+                aff_implied(side, hi, pred=lambda v, h, L: v <= h)[0]
+        else:
+            return False
+    return False
+
+
+def live_subslice(F, f, du, op, cfgd):
+    """is the operand (a reborrow of) `storage[a..b]` / get(a..b) with b at or below the height?"""
+    l = op_local(op)
+    seen = set()
+    while l is not None and l not in seen:
+        seen.add(l)
+        d = du.sole_def(l)
+        if d is None:
+            return False
+        if d[2] == "call":
+            t = d[3]
+            nm = callee_names(t["func"])
+            last = nm[0].rsplit("::", 1)[-1] if nm else ""
+            a0 = op_local(t["args"][0]) if t["args"] else None
+            if last not in S_ELEMENT or len(t["args"]) != 2 or a0 is None or storage_kind(F, f, du, a0, cfgd) != "S":
+                return False
+            r = range_end(f, du, t["args"][1], ((t.get("arg_tys") or ["", ""]) + [""])[1])
+            if r is None or r[0] != "end":
+                return False
+            side = []
+            aff = aff_of(f, du, r[1], cfgd, side=side)
+            return aff is not None and aff_implied(side, aff, pred=(lambda v, h, L: v < h) if r[2] else (lambda v, h, L: v <= h))[0]
+        rv = d[3]["rv"]
+        if rv["k"] == "use":
+            l = op_local(rv["op"])
+        elif rv["k"] == "ref" and rv["place"]["p"] and all(e["k"] == "deref" for e in rv["place"]["p"]):
+            l = rv["place"]["l"]
+        else:
+            return False
+    return False
+
+
+def counts_live_iterations(F, f, du, op, cfgd):
+    """is the operand a counter - 0 before a loop, +1 at most once per item - of a loop over an iterator that yields at most
+    `height` items (see yields_at_most_height)? Then its value never exceeds the height."""
+    cfg = f.cfg
+    l = op_local(op)
+    seen = set()
+    while l is not None and l not in seen:
+        seen.add(l)
+        defs = [d for d in du.defs.get(l, []) if not d[3].get("place", d[3].get("dest"))["p"]]
+        if len(defs) == 1 and defs[0][2] == "assign" and defs[0][3]["rv"]["k"] == "use":
+            l = op_local(defs[0][3]["rv"]["op"])
+            continue
+        break
+    if l is None:
+        return False
+    defs = [d for d in du.defs.get(l, []) if not d[3].get("place", d[3].get("dest"))["p"]]
+    if len(defs) != 2 or any(d[2] != "assign" for d in defs):
+        return False
+    zero = [d for d in defs if d[3]["rv"]["k"] == "use" and d[3]["rv"]["op"].get("k") == "const" and d[3]["rv"]["op"].get("val") == 0]
+    inc = [d for d in defs if d not in zero]
+    if len(zero) != 1 or len(inc) != 1:
+        return False
+    rv = inc[0][3]["rv"]
+    if rv["k"] == "use":
+        pl = op_place(rv["op"])
+        dd = du.sole_def(pl["l"]) if pl is not None and [e.get("name") for e in pl["p"]] == ["0"] else None
+        rv = dd[3]["rv"] if dd is not None and dd[2] == "assign" else None
+    if rv is None or rv["k"] != "bin" or rv["op"] not in ("Add", "AddWithOverflow", "AddUnchecked") or op_local(rv["l"]) != l \
+            or rv["r"].get("k") != "const" or rv["r"].get("val") != 1:
+        return False
+    b_inc, b_zero = inc[0][0], zero[0][0]
+    for bn, t in mu.calls(f):
+        if not any(x.endswith("Iterator::next") for x in callee_names(t["func"])) or t["target"] is None or not t["args"]:
+            continue
+        sw = f.blocks[t["target"]]["term"]
+        some = dict((v, b) for v, b in sw["targets"]).get(1) if sw["k"] == "switch" else None
+        if some is None or not cfg.dominates(some, b_inc):
+            continue
+        if any(b_inc == s_ or b_inc in cfg.reachable_from(s_, avoid={bn}) for s_ in cfg.succ[b_inc]):
+            continue        # more than one increment per item is possible
+        if not cfg.dominates(b_zero, bn) or b_zero in cfg.reachable_from(t["target"]):
+            continue        # the counter is reset inside the loop
+        if yields_at_most_height(F, f, du, t["args"][0], cfgd):
+            return True
+    return False
+
+
+def height_minus(f, du, st, cfgd):
+    """the operand x when the statement stores `height - x` into the height field, else None"""
+    rv = st["rv"]
+    if rv["k"] == "use":
+        pl = op_place(rv["op"])
+        if pl is None or [e.get("name") for e in pl["p"]] not in ([], ["0"]):
+            return None
+        d = du.sole_def(pl["l"])
+        rv = d[3]["rv"] if d is not None and d[2] == "assign" else None
+    if rv is None or rv["k"] != "bin" or rv["op"] not in ("Sub", "SubWithOverflow", "SubUnchecked"):
+        return None
+    a = lin_of(f, du, rv["l"], cfgd)
+    return rv["r"] if a.base == ("h",) and a.off == 0 else None
+
+
 def rule_b(F):
     res = []
-    for adt, cfgd in STACKS.items():
+    for adt in STACKS:
+        cfgd = ctx(F, adt)
         sname = adt.rsplit("::", 1)[-1]
         fns = stack_fns(F, adt)
         if len(fns) < 5:
@@ -506,6 +1328,9 @@ def rule_b(F):
                         res.append(ok("C14.B", key, loc, "height reset to 0"))
                     elif val.base == ("h",) and val.off == 0:
                         res.append(ok("C14.B", key, loc, "height unchanged"))
+                    elif height_minus(f, du, st, cfgd) is not None and counts_live_iterations(F, f, du, height_minus(f, du, st, cfgd), cfgd):
+                        res.append(ok("C14.B", key, loc, "height is lowered by a count of the live elements a loop went through (at most "
+                                      "the height)"))
                     else:
                         # caller supplied height
                         pl = op_place(st["rv"]["op"]) if st["rv"]["k"] == "use" else None
@@ -543,18 +1368,28 @@ def rule_b(F):
                 nm = callee_names(t["func"])
                 if not any(n.endswith("get_unchecked") or n.endswith("get_unchecked_mut") for n in nm):
                     continue
+                if "Range" in ((t.get("arg_tys") or ["", ""])[1:2] or [""])[0]:
+                    continue        # a range of slots: decided with the other sub-slices below
                 idx = lin_of(f, du, t["args"][1], cfgd)
                 guards = guards_on_path(f, du, bi, cfgd) + inherited
+                ig = getattr(idx, "implied_ge", None)
+                if ig is not None and ig[0] == ("h",):
+                    # index taken from the Some arm of checked_sub(height, k): height >= k holds there
+                    guards = guards + [("Ge", Lin(("h",)), Lin(("const",), ig[1]), True)]
                 n = counters.get("u", 0)
                 counters["u"] = n + 1
                 key = "C14/B/%s::%s/unchecked-access#%d" % (sname, fname, n)
                 loc = f.loc(t.get("ln"))
-                # a height store that dominates the access changes what the field holds
+                # a height store that dominates the access changes what the field holds - for an index that reads the field
+                # after the store; an index computed from the field before the store keeps its value
                 cfg = f.cfg
+                rsite = height_read_site(f, du, t["args"][1], cfgd, (bi, "term"))
                 for b2, blk2 in enumerate(f.blocks):
-                    for st2 in blk2["stmts"]:
+                    for s2, st2 in enumerate(blk2["stmts"]):
                         if st2["k"] == "assign" and st2["rv"]["k"] in ("use", "bin") and st2["place"]["p"]:
                             nm2 = [n for n in field_names_of_place(f, du, st2["place"]) if n not in ("0", "1", "pointer")]
+                            if rsite is not None and not site_precedes(cfg, (b2, s2), rsite):
+                                continue
                             if nm2[-1:] == [cfgd["height"]] and (cfg.dominates(b2, bi) and b2 != bi or (b2 == bi)):
                                 stored = lin_of(f, du, st2["rv"]["op"], cfgd) if st2["rv"]["k"] == "use" else lin_bin(f, du, st2["rv"], cfgd)
                                 if idx.base == ("h",) and stored.base == ("h",):
@@ -569,7 +1404,47 @@ def rule_b(F):
                 elif loop_index_below_height(f, du, t["args"][1], cfgd):
                     res.append(ok("C14.B", key, loc, "unchecked index is a loop variable of 0..height"))
                 else:
-                    res.append(undecided("C14.B", key, loc, "unchecked index expression not recognised: %r" % idx))
+                    side = []
+                    aff = aff_of(f, du, t["args"][1], cfgd, side=side)
+                    if aff is not None:
+                        good, cex = aff_implied(aff_guards(f, du, bi, cfgd, side=side) + side, aff, pred=lambda v, h, L: 0 <= v < L)
+                        if good:
+                            res.append(ok("C14.B", key, loc, "unchecked index %s is within the storage in every state the guards admit" % aff))
+                        else:
+                            res.append(bad("C14.B", key, loc, "%s::%s indexes the storage unchecked at %s, which can lie outside it (%s)"
+                                           % (sname, fname, aff_text(f, aff), state_text(f, cex))))
+                    else:
+                        res.append(undecided("C14.B", key, loc, "unchecked index expression not recognised: %r" % idx))
+            # sub-slices of the storage (storage[a..b], get(a..b), get_unchecked(a..b)): they end at or below the height, so
+            # what is iterated / dropped / handed out through them are live elements only
+            kr = 0
+            for bi, ln, spec in storage_reads(F, f, du, cfgd):
+                if spec[0] not in ("range", "open"):
+                    continue
+                key = "C14/B/%s::%s/storage-range#%d" % (sname, fname, kr)
+                kr += 1
+                loc = f.loc(ln)
+                if spec[0] == "open":
+                    res.append(undecided("C14.B", key, loc, "%s::%s takes the storage up to its end (%s), beyond the height: what happens to "
+                                         "the dead slots is not modelled" % (sname, fname, spec[1])))
+                    continue
+                _tag, end_op, inclusive, how = spec
+                side = []
+                aff = aff_of(f, du, end_op, cfgd, side=side)
+                lin = lin_of(f, du, end_op, cfgd)
+                limit = -1 if inclusive else 0
+                if aff is not None:
+                    good, cex = aff_implied(aff_guards(f, du, bi, cfgd, side=side) + side, aff,
+                                            pred=(lambda v, h, L: v < h) if inclusive else (lambda v, h, L: v <= h))
+                    if good:
+                        res.append(ok("C14.B", key, loc, "%s takes the slots below %s, at most the height" % (how, aff)))
+                    else:
+                        res.append(bad("C14.B", key, loc, "%s::%s takes the slots below %s (%s), which can reach beyond the height (%s): slots "
+                                       "that hold no value are treated as elements" % (sname, fname, aff_text(f, aff), how, state_text(f, cex))))
+                elif (lin.base == ("h",) and lin.off <= limit) or (lin.base[0] == "min" and (("h",), 0) in lin.base[1:] and not inclusive):
+                    res.append(ok("C14.B", key, loc, "%s takes the slots below %r, at most the height" % (how, lin)))
+                else:
+                    res.append(undecided("C14.B", key, loc, "end of the storage range (%s) not recognised" % how))
         if n_stores < 3:
             raise AnchorMissing("stores to %s.%s (found %d)" % (sname, cfgd["height"], n_stores))
         # one push policy: every site that raises the height admits exactly the states `push` admits ("a write at the
@@ -678,7 +1553,8 @@ def check_set_height_callers(F, f, param_local, key, loc, sname, fname):
 def rule_f(F):
     """a failing push performs no store: the Err(Full) exit is not reachable from any store into the storage/height"""
     res = []
-    for adt, cfgd in STACKS.items():
+    for adt in STACKS:
+        cfgd = ctx(F, adt)
         sname = adt.rsplit("::", 1)[-1]
         f = F.fn(adt + "::push")
         cfg = f.cfg
@@ -781,7 +1657,8 @@ def rule_t(F):
 
 RULES = [
     Rule("C14.T", rule_t, 1, "clear_until truncates to the given height and reports the old top (all small cases)"),
-    Rule("C14.N", rule_n, 4, "elements handed out are below the height (reads at or beyond it are nil)"),
-    Rule("C14.B", rule_b, 12, "guarded height changes and unchecked accesses of both stacks"),
+    Rule("C14.N", rule_n, 10, "elements handed out are below the height (reads at or beyond it are nil): every read of the storage, "
+                              "by index, slice method, sub-range or storage pointer"),
+    Rule("C14.B", rule_b, 14, "guarded height changes, unchecked accesses and storage sub-ranges of both stacks"),
     Rule("C14.F", rule_f, 4, "a failing push leaves the contents unchanged and happens only when the stack is full"),
 ]
